@@ -25,9 +25,12 @@ from tools import common, shroudrun
 LEVEL = "proof"
 MANIFEST = dict(
     category="proof",
-    text="PARTIAL. Proved in Lean 4 (31 theorems, for all inputs unless a table is named): (1) helper dependency closure used by all four "
+    text="PARTIAL. Proved in Lean 4 (33 theorems, for all inputs unless a table is named): (1) helper dependency closure used by all four "
          "emitters (gather_helper_code, DFS with a done set): terminates on every table, emits exactly the requested helpers and their "
          "transitive dependencies, each once, and on acyclic tables every helper after its dependencies (order fails on a cycle: witness); "
+         "the helper set shared between modules is the union of the modules' sets, so every helper any module (library, namespace, "
+         "class file) asks for reaches the utility file with its dependencies (utility_covers_every_module; that every module's set IS "
+         "merged before write_impl_utility is checked by a tie on real runs); "
          "(2) table theorems over data regenerated from the working tree on every run: CHelpers/FHelpers/LuaHelpers closed (no KeyError) and "
          "acyclic (kernel-checked rank certificate); every {field} placeholder of every fc/py/lua statement template is a format field that "
          "exists for its entry kind; every iso_c_binding symbol named by a declaration template of a statement entry is supplied by the "
@@ -49,14 +52,14 @@ MANIFEST = dict(
          "ships sources and every generated library, quick tier: 8 configurations and a quarter of the generated libraries. NumPy-using Python "
          "files are skipped (headers absent); Lua files compile against tools/ccheck/luaemu, not Lua. A committed baseline "
          "(corpus/c05_baseline.json, rewritten only by `python -m tools.props.c05 --write-baseline`) makes every file/link that used to "
-         "succeed a failing input when it fails; the 'library header does not declare it' exclusion applies only to upstream configurations "
+         "succeed a failing input when it fails; a file of the baseline's list of written files that is no longer written is a failing input too; the 'library header does not declare it' exclusion applies only to upstream configurations "
          "without a shipped header and never to generated libraries. Trusted: Lean kernel; tools/extract_helpers.py (helper tables, "
          "placeholder/provided-field sets = union over real corpus runs + AST scan, an over-approximation; declaration-symbol rows use "
          "literal C_* tokens, {f_type} of explicit interface declarations counted as {f_kind}; the emitter's own additions are one global "
          "set); hand-written models of gather_helper_code, write_headers, the wrapc skeletons and the USE/IMPORT merge, validated "
          "differentially on every run.",
     technique="Lean 4 proof (induction on DFS depth with a done-set measure, list-merge lemmas, decide +kernel over regenerated tables) + "
-              "differential correspondence (four ties) + compile-and-link exploration oracle with committed baseline",
+              "differential correspondence (five ties) + compile-and-link exploration oracle with committed baseline",
 )
 MODULES = ["ShroudVerif.Props.C05"]
 THEOREMS = {
